@@ -13,11 +13,12 @@ UDP_DEFAULT = [500, 1000, 2000, 4000, 8000, 16000]
 UDP_LAST = 8000
 TCP_LAST = 39500
 
-TIMING_ALLOW = {
-    "timeouts_ms": {r"StunRequestState::poll$": {"ref"}, r"StunRequestMut::<'a>::configure_timeout$": {"write", "drop"}},
-    "last_retransmit_timeout_ms": {r"StunRequestState::poll$": {"copy"}, r"StunRequestMut::<'a>::configure_timeout$": {"write"}},
-    "timeout_i": {r"StunRequestState::poll$": {"copy", "write"}},
-    "last_send_time": {r"StunRequestState::poll$": {"copy", "write", "discr"}},
+TIMING = {
+    # field: (readers, writers) by function; what the writers do is decided by their tables
+    "timeouts_ms": ([r"StunRequestState::poll$"], [r"StunRequestMut::<'a>::configure_timeout$"]),
+    "last_retransmit_timeout_ms": ([r"StunRequestState::poll$"], [r"StunRequestMut::<'a>::configure_timeout$"]),
+    "timeout_i": ([], [r"StunRequestState::poll$"]),
+    "last_send_time": ([], [r"StunRequestState::poll$"]),
 }
 
 
@@ -27,28 +28,23 @@ def defaults(prog, chk, rule="default-schedule"):
 
 def run(prog, chk, tier):
     chk.explanation = (
-        "Decided: (a) the default schedule constants (UDP 500..16000 ms + 8000 ms, TCP [] + 39500 ms = their sum) read from the "
-        "MIR of StunRequestState::new; (b) StunRequestState::poll as a complete decision table over {recv_cancelled, "
-        "last_send_time is Some, schedule exhausted, next instant in the future, send_cancelled} with the provenance "
-        "next = last_send + from_millis(timeouts_ms[timeout_i] | last_retransmit_timeout_ms), timeout_i += 1 and "
-        "last_send_time = Some(now) only on the (re)transmit path, never SendData when send_cancelled; (c) who-may-write of the "
-        "four timing fields; (d) in StunAgent::poll the WaitUntil answer must derive from per-request wake-ups only, selected "
-        "by a `<` comparison in the right direction. NOT decided: the numeric instants themselves, the configure_timeout "
-        "formula, min over concurrent schedules as values (run-time quantities).")
-    chk.trusted += ["rustc MIR", "std Instant/Duration arithmetic", "spec tables in pylib/rules/agent.py"]
-    chk.assumptions += ["default constants are written as literals in StunRequestState::new (a computed table would fail closed)"]
+        "Decided from the abstract interpreter's return states: (a) what StunRequestState::new gives a request: UDP intervals "
+        "500..16000 ms then 8000 ms, TCP no retransmission and 39500 ms = their sum, timeout_i = 0, last_send_time = None; "
+        "(b) StunRequestState::poll row by row over {recv_cancelled, last_send_time is Some, schedule exhausted, wake-up "
+        "after now, send_cancelled}: the wake-up is last_send_time + from_millis(timeouts_ms[timeout_i]) (or "
+        "last_retransmit_timeout_ms once exhausted), SendData only when due, not exhausted and not cancelled with "
+        "timeout_i += 1 and last_send_time = Some(now), nothing else changes; (c) function-level who-may-touch of the four "
+        "timing fields, with configure_timeout changing only the two schedule fields (and giving a TCP request no "
+        "retransmission intervals) and cancel_retransmissions only send_cancelled; (d) StunAgent::poll for any number of "
+        "requests (one summary request) and for exactly two requests: it answers WaitUntil only when no request reported "
+        "anything else, the instant is one reported by a request and, with two wake-ups, the comparisons taken on the "
+        "path order it before both. NOT decided: the numeric instants themselves, the configure_timeout formula, the "
+        "minimum over more than two concurrent schedules (run-time quantities).")
+    chk.trusted += ["rustc MIR", "std Instant/Duration arithmetic as uninterpreted terms with a total order", "specification rows in pylib/rules/agent_e2.py"]
     defaults(prog, chk)
     AE.req_poll(prog, chk)
-    for f, allow in TIMING_ALLOW.items():
-        accs = field_accesses(prog, A.REQ_V, f)
-        for a in accs:
-            fn = re.sub(r"::\{closure#\d+\}", "", a["body"])
-            if fn.startswith("<" + A.REQ + " as std::fmt::Debug>"):
-                continue
-            ok = any(re.search(p, fn) and a["how"] in hows for p, hows in allow.items())
-            chk.ob("who-may-access", "%s|%s|%s" % (f, fn.split("::", 2)[-1], a["how"]), ok, a["where"],
-                   detail="timing field `%s` accessed (%s) in %s" % (f, a["how"], fn))
-        chk.floor("timing-%s-sites" % f, len(accs), 2)
+    for f, (rd, wr) in TIMING.items():
+        AE.touchers(prog, chk, "who-may-access", A.REQ_V, f, rd, wr, 2)
     A.no_whole_struct_writes(prog, chk, "no-struct-overwrite", A.REQ)
-    A.agent_poll_table(prog, chk)
-    A.agent_poll_wait(prog, chk)
+    AE.agent_poll(prog, chk)
+    AE.handles(prog, chk, which=("configure_timeout", "cancel_retransmissions"))
